@@ -119,6 +119,16 @@ class C20(Check):
                     elif r < 0.93: ops.append({"op": "envenq"})
                     else: ops.append({"op": "envdone"})
                 yield {"part": "B", "pb": rng.choice([1, 2, 4, 512]), "ops": ops + [{"op": "flush", "outs": []}] * 2}
+        # part T: the REAL threads (cooperative thread in Connection.send, sender thread in DeferredSender.run) under the forced
+        # thread scheduler; the executed trace is translated into model actions and replayed through cstep
+        for c in self._thread_cases(rng, tier): yield c
+
+    def _thread_cases(self, rng, tier):
+        import c20_threads
+        n = 60 if tier == "quick" else 10 ** 9
+        for k, c in enumerate(c20_threads.thread_cases(rng, tier)):
+            if k >= n: break
+            yield {"part": "T", "tcase": c}
 
     def _rout(self, rng):
         r = rng.random()
@@ -133,6 +143,13 @@ class C20(Check):
 
     # ------------------------------------------------------------------ implementation
     def impl(self, case):
+        if case["part"] == "T":
+            import c20_threads
+            r = c20_threads.run_thread_case(case["tcase"])
+            o = dict(r["obs"]); o.update(status=("ok" if r["status"] == "quiescent" and not r["thread_errors"] else "T:" + r["status"] + ":" + ",".join(map(str, r["thread_errors"]))[:80]),
+                                 acts=r["acts"], steps=r["steps"])
+            if r["status"] == "harness-budget": raise SystemExit(2)          # infrastructure, never a violation
+            return o
         return self._impl_a(case) if case["part"] == "A" else self._impl_b(case)
 
     def _impl_a(self, case):
@@ -231,7 +248,12 @@ class C20(Check):
                 "offered_after_disc": s1.offered_after_fatal, "queued": queued.hex(), "status": status}
 
     # ------------------------------------------------------------------ model
+    def model_request2(self, case, obs):
+        if case["part"] != "T" or "acts" not in obs: return None
+        return {"part": "B", "pb": case["tcase"]["pb"], "acts": obs["acts"]}
+
     def model_request(self, case):
+        if case["part"] == "T": return None
         if case["part"] == "A":
             ops = []
             for op in case["ops"]:
@@ -268,7 +290,7 @@ class C20(Check):
 
     # ------------------------------------------------------------------ the property on the implementation
     def oracle(self, case, obs):
-        if obs["status"] != "ok": return "send path raised " + obs["status"].split(":")[1]
+        if obs["status"] != "ok": return "send path raised " + obs["status"].split(":")[1] if case["part"] != "T" else "threads: " + obs["status"]
         if case["part"] == "A":
             queued, dead = b"", False
             for op in case["ops"]:
@@ -284,14 +306,18 @@ class C20(Check):
         if not queued.startswith(acc): return "socket accepted bytes that are not a prefix of the queued stream"
         pend = b"".join(bytes.fromhex(p) for p in obs["pending"])
         if not obs["disc"] and acc + pend != queued: return "live connection: accepted + deferred != queued (lost/duplicated/reordered)"
-        if obs["offered_after_disc"]: return "write attempted after a fatal socket error"
+        # part T (real threads): a refused write attempt after the fatal error is the known race C20-R1, which the random
+        # schedules reach by themselves; there the model must predict exactly the same number of attempts (correspondence),
+        # the finding itself is reported once, by the deterministic raced-send corpus case
+        if obs["offered_after_disc"] and case["part"] != "T": return "write attempted after a fatal socket error"
         return None
 
     def finding_key(self, case, obs, failure):
-        raced = ":raced-send" if any(op["op"] == "send_raced" for op in case["ops"]) else ""
+        raced = ":raced-send" if any(op["op"] == "send_raced" for op in case.get("ops", [])) else ""
         return case["part"] + raced + ":" + failure[:60]
 
     def nontrivial(self, case, obs):
+        if case["part"] == "T": return len(case["tcase"]["outs"]) > 0
         for op in case["ops"]:
             for o in ([op["o"]] if "o" in op else op.get("outs", [])) if op["op"] != "send_raced" else [4]:
                 o = self._o(o)
